@@ -153,6 +153,8 @@ pub enum AuxFault {
     MacBit { bit: u16 },
     /// one cached node replaced by zeros / garbage and the MAC left alone
     NodeZero { pos: Frac },
+    /// cut the buffer off right where its MAC would start (drop the last n bytes)
+    DropMac,
 }
 
 #[derive(Serialize, Deserialize, Clone, Debug, PartialEq, Eq, Hash)]
